@@ -8,7 +8,7 @@ use serde_json::json;
 use tfref::alpha::{gen_fracs, mk_f64, run_bounded, weyl_fracs};
 use tfref::big::{dd_valid, dd_valid_fast, Dy};
 
-pub const CALLS: [&str; 7] = ["rem", "rem_assign", "rem_f", "rem_assign_f", "f_rem", "div_euclid", "rem_euclid"];
+pub const CALLS: [&str; 8] = ["rem", "rem_assign", "rem_f", "rem_assign_f", "f_rem", "div_euclid", "rem_euclid", "rem_self"];
 
 fn in_range(hi: f64) -> bool {
     hi.is_finite() && hi.abs() >= 2f64.powi(-400) && hi.abs() <= 2f64.powi(400)
@@ -75,6 +75,11 @@ pub fn spec(a: &Dy, b: &Dy) -> Option<Spec> {
 pub fn judge(call: usize, aw: [f64; 2], bw: [f64; 2], l: Option<&mut Local>) -> Verdict {
     let name = CALLS[call];
     let args = [aw[0].to_bits(), aw[1].to_bits(), bw[0].to_bits(), bw[1].to_bits()];
+    // 7: `&x % &x` with BOTH operands the same object (aliased references); judged as rem of (a, a)
+    let aliased = call == 7;
+    if aliased && (aw[0].to_bits() != bw[0].to_bits() || aw[1].to_bits() != bw[1].to_bits()) {
+        return Verdict::Skip;
+    }
     if !in_range(aw[0]) || !in_range(bw[0]) || !dd_valid_fast(aw[0], aw[1]) || !dd_valid_fast(bw[0], bw[1]) {
         return Verdict::Skip;
     }
@@ -90,6 +95,7 @@ pub fn judge(call: usize, aw: [f64; 2], bw: [f64; 2], l: Option<&mut Local>) -> 
     let a = st::mk(aw);
     let b = st::mk(bw);
     let res = api(|| match call {
+        7 => &a % &a,
         0 => a % b,
         1 => {
             let mut t = a;
@@ -106,6 +112,7 @@ pub fn judge(call: usize, aw: [f64; 2], bw: [f64; 2], l: Option<&mut Local>) -> 
         5 => a.div_euclid(b),
         _ => a.rem_euclid(b),
     });
+    let call = if aliased { 0 } else { call };
     let r = match res {
         Ok(t) => [t.hi(), t.lo()],
         Err(m) => return Verdict::fail("no_panic", name, &args, format!("panic: {}", m), "a value".into(), "panic"),
@@ -316,6 +323,21 @@ pub fn run(r: &mut Runner) {
                 for call in 0..7usize {
                     let v = judge(call, org[i], *y, Some(l));
                     rec.record(l, (1u64 << 61) + ((i * nb + j) * 7 + call) as u64, v);
+                }
+            }
+        });
+    }
+    {
+        // the same object on both sides: `&x % &x` (aliased references), which a squaring / self-cancellation shortcut keyed on
+        // pointer identity would treat differently from two equal values; judged with the oracle of (x, x)
+        let xs = crate::fx::self_alphabet(quick, -400, 399, 1901);
+        let nx = xs.len();
+        r.notes.push(format!("aliased operands (&x % &x, one object): {} operands (grid over exponents -400..399, one-call chain states, generic stream)", nx));
+        r.par("aliased operands: &x % &x", nx.div_ceil(4096), nx as u64, |c, l| {
+            for i in (c * 4096)..((c + 1) * 4096).min(nx) {
+                for call in [7usize] {
+                    let v = judge(call, xs[i], xs[i], Some(l));
+                    rec.record(l, (5u64 << 59) + (i * 4 + call % 4) as u64, v);
                 }
             }
         });
